@@ -20,6 +20,8 @@ pub const DEF: PropDef = PropDef {
         "min-max with negation is not fixed by the statement (no reading of NOT in 'best derivation's weakest input'): not judged",
         "cases where a numeric filter meets a non-numeric binding and the two readings differ in some world are not judged",
         "every fact is inserted once (no triple both certain and tagged, no duplicate tagged triple)",
+        "the store hands facts out in HashMap order (random per process): a wrong probability that changes from run to run is still a failure (tag result_varies_between_runs), a replay executes the case 8 times",
+        "failure tag explained_by=single_pass_over_negated_rules_after_positive_fixpoint: every reported value lies between the value R-worlds gives when each world is evaluated with one pass over the negated rules and the exact value",
     ],
     run,
     replay,
